@@ -44,6 +44,8 @@ def cluster_leg(c, sc, views):
     cl = cluster.Cluster(sc + "/own_cluster", 3)
     keys = ["ownsvc%d" % i for i in range(12)]
     obs = []
+    hashes = {}
+    beats = []
 
     def snapshot(label, alive):
         ans = {}
@@ -57,6 +59,7 @@ def cluster_leg(c, sc, views):
         bad = None
         for ki, k in enumerate(keys):
             h = int(ans[alive[0]]["routes"][ki]["hash"])
+            hashes[k] = h
             owners = [n for n in alive if _owns(_range(ans[n]["actor_range"]), h)]
             routed = {}
             for n in alive:
@@ -98,11 +101,35 @@ def cluster_leg(c, sc, views):
                     via = 2 + (ki + rnd) % 2
                     r = cl.nodes[via].call({"op": "ns_http_register", "service": k, "ip": "10.4.0.%d" % (ki + 1), "port": 7000 + rnd, "weight": 1.0}, timeout=10)
                     sent += 1 if r.get("res") == "ok" else 0
-                time.sleep(1.0)
+                # "an HTTP write is routed to precisely the node that considers itself its owner": a heart-beat sent to the node
+                # that is NOT responsible for the service must arrive at the responsible one - its copy's last-modified time moves
+                time.sleep(0.6)
                 bad = snapshot("node 1 dead, after traffic round %d" % rnd, [2, 3])
+                if not bad:
+                    rngs = obs[-1]["ranges"]
+
+                    def lm_of(n, k, ip, port):
+                        d = cl.nodes[n].call({"op": "ns_dump"}, timeout=8)
+                        return next((i["lm"] for i in d.get("instances", []) if i["service"] == k and i["ip"] == ip and i["port"] == port), None)
+                    for ki, k in enumerate(keys):
+                        ip, port = "10.4.0.%d" % (ki + 1), 7000 + rnd
+                        owner = [n for n in (2, 3) if _owns(_range(rngs[n]), hashes[k])]
+                        if len(owner) != 1:
+                            continue
+                        other = 5 - owner[0]
+                        before = lm_of(owner[0], k, ip, port)
+                        time.sleep(0.02)
+                        r = cl.nodes[other].call({"op": "ns_http_beat", "service": k, "ip": ip, "port": port}, timeout=10)
+                        after = lm_of(owner[0], k, ip, port)
+                        beats.append({"key": k, "via": other, "owner": owner[0], "res": r.get("res"), "lm_before": before, "lm_after": after})
+                        if r.get("res") == "ok" and before is not None and (after is None or after <= before):
+                            bad = ("a heart-beat sent to a node that is not responsible for the service did not reach the responsible node",
+                                   {"key": k, "ip": ip, "sent_to": other, "owner": owner[0], "owner_last_modified": "later than %s" % before}, {"owner_last_modified": after})
+                            break
                 if bad:
                     break
-        c.cov["cluster_leg"] = {"observations": obs, "http_registrations_acknowledged": sent}
+        c.cov["cluster_leg"] = {"observations": obs, "http_registrations_acknowledged": sent, "beats_through_the_non_owner": len(beats),
+                                "beat_sample": beats[:3]}
         c.traces(len(obs))
         c.count(len(obs), [{"cluster_observation": o["at"]} for o in obs])
         if sent < 12 and not bad:
